@@ -147,7 +147,31 @@ width_ops!(w32, u32, 4, [CRC_32_ISCSI, CRC_32_ISO_HDLC, CRC_32_BZIP2, CRC_32_MPE
     to_slice_u32, to_vec_u32, to_allocvec_u32, from_bytes_u32, take_from_bytes_u32);
 width_ops!(w64, u64, 8, [CRC_64_ECMA_182, CRC_64_XZ, CRC_64_GO_ISO, CRC_40_GSM],
     to_slice_u64, to_vec_u64, to_allocvec_u64, from_bytes_u64, take_from_bytes_u64);
-width_ops!(w128, u128, 16, [CRC_82_DARC],
+/// The catalogue has no algorithm wider than 82 bits; a full-width one, so that all 16 checksum
+/// bytes carry information (parameters made up, `check` computed by the crc crate itself — the
+/// oracle's own value is still computed independently, bit by bit).
+pub const CRC_128_PCSIM_BASE: Algorithm<u128> = Algorithm {
+    width: 128,
+    poly: 0x0000_0000_0000_0000_0000_0000_0000_0087 | (0x9d5c_4b3a_2f1e_0d17_u128 << 64) | (0x1b2a_3948_5766_7584_u128 << 8) | 1,
+    init: u128::MAX,
+    refin: true,
+    refout: true,
+    xorout: 0x0123_4567_89ab_cdef_fedc_ba98_7654_3210,
+    check: 0,
+    residue: 0,
+};
+pub const CRC_128_PCSIM: Algorithm<u128> = Algorithm {
+    check: Crc::<u128>::new(&CRC_128_PCSIM_BASE).checksum(b"123456789"),
+    ..CRC_128_PCSIM_BASE
+};
+pub const CRC_128_PCSIM_MSB: Algorithm<u128> = Algorithm {
+    refin: false,
+    refout: false,
+    check: Crc::<u128>::new(&Algorithm { refin: false, refout: false, ..CRC_128_PCSIM_BASE }).checksum(b"123456789"),
+    ..CRC_128_PCSIM_BASE
+};
+
+width_ops!(w128, u128, 16, [CRC_82_DARC, CRC_128_PCSIM, CRC_128_PCSIM_MSB],
     to_slice_u128, to_vec_u128, to_allocvec_u128, from_bytes_u128, take_from_bytes_u128);
 
 pub const WIDTHS: [usize; 5] = [8, 16, 32, 64, 128];
@@ -245,6 +269,10 @@ pub enum Damage {
     Duplicate { pos: usize, len: usize },
     /// two bytes exchanged
     Swap { a: usize, b: usize },
+    /// `junk` inserted between value and checksum, and the checksum replaced by the correct
+    /// checksum of value ++ junk: a decoder that checks "the last W bytes against everything
+    /// before them" instead of "the W bytes after the value against the value" accepts it
+    AppendRechecksummed { junk: Vec<u8> },
 }
 
 #[derive(Clone, Debug, Serialize, Deserialize)]
@@ -304,7 +332,8 @@ mod f {
     pub const BITFLIP_SUFFIX: usize = 8;
     pub const LENGTH_CHANGING: usize = 9;
     pub const SWAP: usize = 10;
-    pub const NAMES: [&str; 11] = [
+    pub const RECHECKSUMMED: usize = 11;
+    pub const NAMES: [&str; 12] = [
         "single_bit_flip_in_payload",
         "single_bit_flip_in_checksum",
         "burst_within_payload",
@@ -316,6 +345,7 @@ mod f {
         "single_bit_flip_in_suffix",
         "byte_inserted_deleted_or_duplicated",
         "two_bytes_swapped",
+        "junk_after_the_value_with_checksum_recomputed_over_value_and_junk",
     ];
 }
 
@@ -400,6 +430,7 @@ fn apply(x: &[u8], d: &Damage, refin: bool) -> Vec<u8> {
                 y.swap(*a, *b);
             }
         }
+        Damage::AppendRechecksummed { .. } => {} // built by the caller, which knows the algorithm
     }
     y
 }
@@ -418,7 +449,16 @@ struct Ctx<'a> {
 /// One decode under one damage; the converse clause. Returns false on violation.
 fn check_damaged(c: &Ctx, d: &Damage, out: &mut Outcome<C10Trace>) -> bool {
     let w = c.o.bytes;
-    let x = apply(&c.x0, d, c.alg.refin);
+    let x = match d {
+        Damage::AppendRechecksummed { junk } => {
+            let mut y = c.x0[..c.plen].to_vec();
+            y.extend_from_slice(junk);
+            let sum = bitwise_crc(c.alg, &y);
+            y.extend_from_slice(&le_bytes(sum, w));
+            y
+        }
+        _ => apply(&c.x0, d, c.alg.refin),
+    };
     let changed_frame = x.len() < c.flen || x[..c.flen] != c.x0[..c.flen];
     out.evals += 1;
     out.extra[X_DECODES_UNDER_DAMAGE] += 1;
@@ -440,6 +480,7 @@ fn check_damaged(c: &Ctx, d: &Damage, out: &mut Outcome<C10Trace>) -> bool {
         Damage::Delete { .. } => (7, 7),
         Damage::Duplicate { .. } => (8, 8),
         Damage::Swap { .. } => (9, 9),
+        Damage::AppendRechecksummed { .. } => (10, 10),
     };
     out.ev(code, x.len() as u64, matches!(r, Ok(Ok(_))) as u64, || {
         format!(
@@ -629,6 +670,10 @@ fn check_damaged(c: &Ctx, d: &Damage, out: &mut Outcome<C10Trace>) -> bool {
             out.fault(f::SWAP);
             3
         }
+        Damage::AppendRechecksummed { .. } => {
+            out.fault(f::RECHECKSUMMED);
+            3
+        }
     };
     if changed_frame {
         let mut s = Fnv::new();
@@ -769,7 +814,10 @@ fn exec_c10(t: &C10Trace, out: &mut Outcome<C10Trace>) {
                 }
             };
             let tk = (o.take)(&x, t.alg);
-            let fr = (o.from)(&x, t.alg);
+            // `from_bytes_crc*` returns no remainder: the statement's "decoding of it" is the
+            // frame itself, so it is given exactly the frame (what it does with bytes after the
+            // checksum is only judged by the converse clause, under `AppendRechecksummed` below)
+            let fr = (o.from)(&frame, t.alg);
             out.evals += 2;
             out.extra[X_FAULT_FREE_CHECKS] += 2;
             let ok = match (&tk, &fr) {
@@ -816,7 +864,7 @@ fn exec_c10(t: &C10Trace, out: &mut Outcome<C10Trace>) {
                     };
                     let mut buf = vec![0u8; frame.len()];
                     let d = postcard::to_slice_crc32(&v, &mut buf, w32::CRCS[t.alg].digest())?.to_vec();
-                    let e = postcard::from_bytes_crc32::<DynOwned>(&x, w32::CRCS[t.alg].digest())?.0;
+                    let e = postcard::from_bytes_crc32::<DynOwned>(&frame, w32::CRCS[t.alg].digest())?.0;
                     let (f, rem) = postcard::take_from_bytes_crc32::<DynOwned>(&x, w32::CRCS[t.alg].digest())?;
                     Ok::<_, postcard::Error>((a, b, c, d, e, f.0, rem.len()))
                 });
@@ -928,6 +976,13 @@ fn exec_c10(t: &C10Trace, out: &mut Outcome<C10Trace>) {
                         if !check_damaged(&c, &Damage::Burst { first, len, pattern }, out) {
                             return;
                         }
+                    }
+                }
+                // junk between value and checksum, checksum recomputed over both
+                for k in [1usize, 2, w, w + 1, 7] {
+                    let junk: Vec<u8> = (0..k).map(|_| rng.next() as u8).collect();
+                    if !check_damaged(&c, &Damage::AppendRechecksummed { junk }, out) {
+                        return;
                     }
                 }
                 // seeded byte overwrites and multi-byte damage
@@ -1081,7 +1136,7 @@ impl Scenario for C10 {
         vec![
             "Under damage the only alarm is the converse clause: whenever CRC-checked decoding succeeds, the bytes consumed for the value are followed by their correct checksum (computed by the harness's own bitwise CRC). The statement's corollaries (checksum-only damage, single-bit / burst <= width with unchanged length, truncation) are used as labels of a failing case, never as separate assertions, because a short CRC can legitimately match by chance when the decoded length changes.".into(),
             "Payload yardstick is the real plain encoding (to_allocvec) and plain decoding (from_bytes) of the same value, as the statement says.".into(),
-            "Algorithms: 6 for u8, 6 for u16, 6 for u32, 4 for u64, CRC-82/DARC for u128, including widths that are not a multiple of 8 (CRC-5/7/12/15/24/31/40).".into(),
+            "Algorithms: 6 for u8, 6 for u16, 6 for u32, 4 for u64, CRC-82/DARC and two full-width 128-bit parameter sets for u128, including widths that are not a multiple of 8 (CRC-5/7/12/15/24/31/40).".into(),
             "Payloads are at most 380 bytes with the complete damage enumeration; one frame in 250 carries a block of 512 bytes to 64 KiB with a reduced damage set (bit flips in the first 16 and last 64 bytes, a dozen truncations, 24 seeded damages).".into(),
         ]
     }
